@@ -1,6 +1,8 @@
 (* C16 — asyncio, blocking and Twisted protocol classes interpret a stream identically. *)
 From Coq Require Import ZArith List Bool.
 From HP Require Import Bytes Wire ClientProto.
+From HP Require Import PyPrim PyObj.
+From HP Require ProtoClsGen ProtoClsEq.
 Import ListNotations.
 Open Scope Z_scope.
 
@@ -18,5 +20,46 @@ Theorem C16_drop_iff : forall ident secret op body evs, 0 <= op <= 5 ->
   blk_message ident secret op body = (evs, false) -> (In Close evs <-> (op = 2 \/ op = 4 \/ op = 5)).
 Proof. exact drop_iff. Qed.
 
+(* ---- for the SOURCE: ProtoClsGen.v is the Gallina text harness/pytrans2.py translated on this run from
+   hpfeeds/asyncio/protocol.py (module Aio), hpfeeds/blocking/protocol.py (Blk) and hpfeeds/twisted/protocol.py (Tw):
+   BaseProtocol + ClientProtocol of each, the methods reachable from data_received / dataReceived, as a recording
+   subclass and the transport see them (PyObj.v).  State: mkpst (the Unpacker's buffer) (the log so far).
+   data_spec out evs buf' log := out's state is (buf', log ++ evs without a trailing Raised) and out raises iff evs ends
+   in Raised.  An ident of more than 255 bytes cannot be packed at all (struct.error in all three), hence the premise. ---- *)
+Theorem C16_src_blocking_is_model : forall ident secret, zlen ident <= 255 -> forall buf chunk log,
+  let '(evs, buf') := blk_data ident secret buf chunk in
+  ProtoClsEq.data_spec (ProtoClsGen.Blk.data_received (VStr ident) (VStr secret) (VBytes chunk) (mkpst (VBArr buf) log)) evs buf' log.
+Proof. exact ProtoClsEq.blk_data_eq. Qed.
+Theorem C16_src_twisted_is_model : forall ident secret, zlen ident <= 255 -> forall buf chunk log,
+  let '(evs, buf') := tw_data ident secret buf chunk in
+  ProtoClsEq.data_spec (ProtoClsGen.Tw.dataReceived (VStr ident) (VStr secret) (VBytes chunk) (mkpst (VBArr buf) log)) evs buf' log.
+Proof. exact ProtoClsEq.tw_data_eq. Qed.
+Theorem C16_src_asyncio_is_model : forall ident secret, zlen ident <= 255 -> forall buf chunk log,
+  let '(evs, buf') := blk_data ident secret buf chunk in
+  ProtoClsEq.data_spec (ProtoClsGen.Aio.data_received (VStr ident) (VStr secret) (VBytes chunk) (mkpst (VBArr buf) log)) evs buf' log.
+Proof. exact ProtoClsEq.aio_data_eq. Qed.
+
+(* for every byte stream in every chunking the three translated classes end with the same log and the same buffer
+   (run_cls data chunks st0 = the state after feeding the chunks one by one, whatever escaped) *)
+Theorem C16_src_three_equal : forall ident secret, zlen ident <= 255 -> forall chunks : list bytes,
+  ProtoClsEq.run_cls (ProtoClsGen.Aio.data_received (VStr ident) (VStr secret)) chunks ProtoClsEq.st0 =
+  ProtoClsEq.run_cls (ProtoClsGen.Blk.data_received (VStr ident) (VStr secret)) chunks ProtoClsEq.st0 /\
+  ProtoClsEq.run_cls (ProtoClsGen.Blk.data_received (VStr ident) (VStr secret)) chunks ProtoClsEq.st0 =
+  ProtoClsEq.run_cls (ProtoClsGen.Tw.dataReceived (VStr ident) (VStr secret)) chunks ProtoClsEq.st0.
+Proof. exact ProtoClsEq.src_three_equal. Qed.
+(* ... and chunk by chunk, from any buffer and log, also on whether an exception escapes *)
+Theorem C16_src_three_agree : forall ident secret, zlen ident <= 255 -> forall buf chunk log,
+  let st := mkpst (VBArr buf) log in
+  ProtoClsEq.agree (ProtoClsGen.Aio.data_received (VStr ident) (VStr secret) (VBytes chunk) st)
+                   (ProtoClsGen.Blk.data_received (VStr ident) (VStr secret) (VBytes chunk) st) /\
+  ProtoClsEq.agree (ProtoClsGen.Blk.data_received (VStr ident) (VStr secret) (VBytes chunk) st)
+                   (ProtoClsGen.Tw.dataReceived (VStr ident) (VStr secret) (VBytes chunk) st).
+Proof. exact ProtoClsEq.src_three_agree. Qed.
+
 Print Assumptions C16_three_equal.
 Print Assumptions C16_drop_iff.
+Print Assumptions C16_src_blocking_is_model.
+Print Assumptions C16_src_twisted_is_model.
+Print Assumptions C16_src_asyncio_is_model.
+Print Assumptions C16_src_three_equal.
+Print Assumptions C16_src_three_agree.
